@@ -143,6 +143,9 @@ def r_metadata(ctx):
                 lr = schema.read_row(F, d, lens[0])
                 good = good and lr[0][0] == 4 and lr[0][1] == n and lr[2] == 'BE'
                 rng = [s for s in walk(it) if s[0] == 'agg' and s[1].endswith('RangeTo')]
+                # `cursor.split_at(items_len).0` bounds the bitmap slice just as `&cursor[..items_len]` does
+                rng += [s for s in walk(it) if s[0] == 'field' and s[2] == '0' and strip(s[1])[0] == 'call' and strip(s[1])[1].endswith('split_at')
+                        and any(q[0] == 'call' and q[1].endswith('read_u32') for q in walk(strip(s[1])[2][1]))]
                 good = good and bool(rng)
             else:
                 good = False
